@@ -356,6 +356,7 @@ def extract_function(repo, fn, spec, common_rules, fires, info):
     ins = []  # (position, order, text) -- placeholders now, spec text after lowering (so that the lowering
     #            rules rewrite the repository's text only, never the injected contract text)
     ph = {}
+    cont_edits = []   # (start, end, replacement) for `continue;` -> `goto tail;`
     for k, lp in enumerate(loops, 1):
         clauses = spec.get(('loop', name, k), '')
         head = spec.get(('head', name, k), '')
@@ -390,10 +391,18 @@ def extract_function(repo, fn, spec, common_rules, fires, info):
             ins.append((endpos, -3, ' ' + ppost + ' '))
         ptl = ''
         if tail.strip():
-            if re.search(r'\bcontinue\b', body[lp.body_start:lp.body_end]):
-                raise ExtractionBreak('%s: loop %d has a tail block but its body contains continue' % (name, k))
+            # a `continue` of THIS loop must not skip the ghost tail: it becomes a jump to a label placed in
+            # front of the tail (continues of nested loops are left alone)
+            lbl = ''
+            nested = [(l2.body_start, l2.body_end) for l2 in loops if lp.body_start < l2.kw_pos < lp.body_end]
+            for mc in re.finditer(r'\bcontinue\s*;', body[lp.body_start:lp.body_end]):
+                a = lp.body_start + mc.start()
+                if any(b0 <= a < b1 for b0, b1 in nested):
+                    continue
+                lbl = '__gv_tail_%d' % k
+                cont_edits.append((a, lp.body_start + mc.end(), 'goto %s;' % lbl))
             ptl = ' __GV_LOOPTAIL_%d__ ' % k
-            ph[ptl.strip()] = '\n' + tail
+            ph[ptl.strip()] = '\n' + (lbl + ': ;\n' if lbl else '') + tail
         if lp.kind == 'do':
             ins.append((lp.tail_end, 0, ' ' + pc + ' '))
         else:
@@ -417,8 +426,9 @@ def extract_function(repo, fn, spec, common_rules, fires, info):
         pk = '__GV_AT_%s__' % bname
         ph[pk] = '\n' + txt
         ins.append((ms[0].start(), -4, ' ' + pk + ' '))
-    for pos, _, txt in sorted(ins, key=lambda x: (x[0], x[1]), reverse=True):
-        body = body[:pos] + txt + body[pos:]
+    edits = [(pos, pos, order, txt) for pos, order, txt in ins] + [(a, b, 5, txt) for a, b, txt in cont_edits]
+    for a, b, _, txt in sorted(edits, key=lambda x: (x[0], x[2]), reverse=True):
+        body = body[:a] + txt + body[b:]
 
     # 2. lowering rules: function-specific first, then the unit's common rules, then R1 (members)
     body = apply_rules(body, fn.get('rules', []), fires, name)
